@@ -49,6 +49,21 @@ pub fn with_bench<R>(f: impl FnOnce(&mut Bench) -> R) -> R {
     BENCH.with(|b| {
         let mut b = b.borrow_mut();
         if b.is_none() {
+            // build outside any simulated process, so that the construction (key draws)
+            // never shows up in a sim's event log
+            let prev = engine::verif_seam::uninstall();
+            let bench = Some(Bench {
+                searcher: Searcher::new(),
+                reference: Reference::new(),
+                pos: None,
+                max_engine_nodes: 5_000_000,
+            });
+            if let Some(p) = prev {
+                engine::verif_seam::install(p);
+            }
+            *b = bench;
+        }
+        if b.is_none() {
             *b = Some(Bench {
                 searcher: Searcher::new(),
                 reference: Reference::new(),
